@@ -30,7 +30,37 @@ def body(c):
         res = vlib.run_tlc(d, "Flow", cfg, timeout=900, workers=4)
         c.add_tlc(cfg, res)
         vlib.require_tlc_ok(res, cfg)
+    res = vlib.run_tlc(d, "SubFlow", "SubFlow_TRUE.cfg", timeout=300, workers=2)
+    c.add_tlc("SubFlow (subscription end: drain, then deregister)", res)
+    vlib.require_tlc_ok(res, "SubFlow_TRUE")
     binp = vlib.go_build("cmd/flowrun")
+    # the lagging-subscriber schedule SubFlow is about: queue full, publisher blocked in the send, subscription ends
+    rc, out, err = run_flow(binp, ["-sublag", "-hang", "40"])
+    if rc != 0 or not out.strip():
+        raise Inconclusive("flowrun -sublag failed: %s" % err[-1500:])
+    r = json.loads(out.strip().splitlines()[-1])
+    c.cov["engines"].append({"replay": "lagging subscriber (1000-batch queue full) then callback error", "result": r.get("sig") or r.get("detail")})
+    if not r["ok"]:
+        rc2, out2, _ = run_flow(binp, ["-sublag", "-hang", "40"])
+        r2 = json.loads(out2.strip().splitlines()[-1]) if rc2 == 0 and out2.strip() else {"ok": True}
+        if not r2["ok"]:
+            c.violation(r["sig"], r.get("detail"), {"mode": "-sublag"})
+    # sustained back-pressure: level 0 stalled, flush queue full, four committers, repeated DropAll/DropPrefix, Close
+    tot_stalls = 0
+    for sd in range(2 if q else 10):
+        rc, out, err = run_flow(binp, ["-stalldrop", "-seed", str(c.seed * 100 + sd), "-hang", "45"], timeout=600)
+        if rc != 0 or not out.strip():
+            raise Inconclusive("flowrun -stalldrop failed: %s" % err[-1500:])
+        r = json.loads(out.strip().splitlines()[-1])
+        tot_stalls += r.get("stalls", 0)
+        if not r["ok"]:
+            rc2, out2, _ = run_flow(binp, ["-stalldrop", "-seed", str(c.seed * 100 + sd), "-hang", "45"], timeout=600)
+            r2 = json.loads(out2.strip().splitlines()[-1]) if rc2 == 0 and out2.strip() else {"ok": True}
+            if not r2["ok"] and r2.get("sig", "").split(" (")[0] == r["sig"].split(" (")[0]:
+                c.violation(r["sig"], r.get("detail"), {"mode": "-stalldrop", "seed": c.seed * 100 + sd})
+                break
+    c.cov["engines"].append({"replay": "sustained back-pressure with repeated drops and Close", "runs": 2 if q else 10,
+                             "l0_stall_events": tot_stalls})
     # the as-is constants: TLC's counterexamples, reproduced against the real code
     for cfg, mode in (("Flow_close_asis.cfg", "-straggler"), ("Flow_close_asis.cfg", "-stragglerhang"),
                       ("Flow_both_asis.cfg", "-closeduringdrop"), ("Flow_dropread_asis.cfg", "-dropstraggler")):
